@@ -153,7 +153,10 @@ func (e *event) toJepsenLogEntry() string {
 		panic("unknown eventResult")
 	}
 
-	return fmt.Sprintf("INFO  jepsen.util - %-4d%-8s%-8s%s\n", e.id, r, t, v)
+	// the parser (porcupine.parseJepsenLog) requires white space between the
+	// columns; %-3d followed by a blank keeps the layout of ids below 1000 and
+	// still separates wider ids from the next column.
+	return fmt.Sprintf("INFO  jepsen.util - %-3d %-8s%-8s%s\n", e.id, r, t, v)
 }
 
 const (
